@@ -241,10 +241,16 @@ def run_cases(ctx, binary, catalog_path, allcases, quick, rng, vacuity):
     ctx.log("spec verdicts: %d valid / %d invalid" % (sum(1 for c in cases if c["expected"]), sum(1 for c in cases if not c["expected"])))
     # ---- 5. verdicts -----------------------------------------------------------------------------
     nviol = collections.Counter()
+    lenient = 0
     for cid in sorted(k for k in bad if not isinstance(k, tuple)):
         c, r = by_id[cid], results[cid]
         if r["panic"]:
             continue  # reported below
+        if c["kind"] == "DiscardedInvalid" and not r["accept"]:
+            # the selected operation is valid, a definition the request does not execute is not: rules about discarded
+            # definitions are outside the guarantee - rejecting such a document is allowed (accepting is, too)
+            lenient += 1
+            continue
         for key in violation_keys(c, r, bad[cid]):
             nviol[key] += 1
             what = ("admission sequence %s an operation the specification says is %s [%s] (mutation %s on %s/%s; violated rules: %s; "
@@ -284,6 +290,7 @@ def run_cases(ctx, binary, catalog_path, allcases, quick, rng, vacuity):
         "violated_rules_in_cases": dict(collections.Counter(r for c in cases for r in c["failed"])),
         "implementation_stage": dict(stages),
         "nonconforming": dict(nviol),
+        "rejected_for_a_discarded_invalid_definition": lenient,
         "samples": [{"kind": c["kind"], "schema": c["schema"], "text": results[c["id"]]["text"], "expected_valid": c["expected"],
                      "violated_rules": c["failed"], "accept": results[c["id"]]["accept"], "msg": results[c["id"]]["msg"][:120]}
                     for c in (cases[:2] + [x for x in cases if not x["expected"]][:2])],
